@@ -125,7 +125,10 @@ PROPS = {
     ),
     "C01": dict(
         module="FastQr.Props.C01", level="proof", key=key_build,
-        rule="cases: `uplace`: place_on_matrix_data through its hook on the blank symbol with ARBITRARY codeword bytes (spec verdict: the "
+        rule="cases: `xref`: symbols made by the INDEPENDENT `qrcode` crate (one segment pushed through its Bits API; every version x level "
+             "x mode in thorough) read by the specification side alone — function patterns = Spec.Regions, both format copies, version words, "
+             "Table 9 split with zero syndromes, parsed segment = input: a cross-validation of the trusted Spec, nothing of fast_qr involved; "
+             "`uplace`: place_on_matrix_data through its hook on the blank symbol with ARBITRARY codeword bytes (spec verdict: the "
              "k-th cell of the ISO read-out order holds bit k, labels untouched); and the public QRBuilder; every (version, level) cell with forced/automatic mode, mask and version, lengths "
              "{0,1,2,3, cap/2, cap-3..cap, first length of the version} and random, contents random / lowest / highest / pad "
              "look-alike; thorough = every (version, level, mask in 8+auto, mode in 3+auto). distinct = distinct (forced-option "
